@@ -8,7 +8,7 @@ SEEDS="$@"; [ -n "$SEEDS" ] || SEEDS=$(ls seeded)
 rc=0
 for s in $SEEDS; do
   pid=$(map $s)
-  git -C /repo apply seeded/$s/patch.diff || { echo "$s: patch does not apply"; rc=1; continue; }
+  git -C /repo apply /verif/seeded/$s/patch.diff || { echo "$s: patch does not apply"; rc=1; continue; }
   ./check $pid --no-evidence > /tmp/regress_seed_$s.log 2>&1; ex=$?
   git -C /repo checkout -- .
   n=$(grep -c '^VIOLATION' /tmp/regress_seed_$s.log)
